@@ -24,6 +24,21 @@ func TestSweep(t *testing.T) {
 	for _, e := range Pairs {
 		ds := e.S.Bits
 		Oracle.One(t, env, rec, "sweep", &Case{S: e.S.Name, D: e.D.Name, Amps: BAmps[ds]})
+		for _, pad := range []int{1024, 4099} {
+			Oracle.One(t, env, rec, "sweep", &Case{S: e.S.Name, D: e.D.Name, Amps: BAmps[ds], Pad: pad})
+		}
+		if ds == 8 { // every 8-bit code, alone in short buffers and repeated in long ones
+			all := make([]int64, 256)
+			for i := range all {
+				all[i] = int64(i) - 128
+			}
+			for _, pad := range []int{0, 1024, 4352, 70000} {
+				Oracle.One(t, env, rec, "sweep", &Case{S: e.S.Name, D: e.D.Name, Amps: all, Pad: pad})
+			}
+			for i := range all {
+				Oracle.One(t, env, rec, "sweep", &Case{S: e.S.Name, D: e.D.Name, Amps: all[i : i+1]})
+			}
+		}
 		if !(ds <= 16 || (ds == 32 && env.Thorough())) {
 			continue
 		}
